@@ -1954,6 +1954,39 @@ func (x *verifC07Run) step() {
 	x.afterOp(false)
 }
 
+// probeReopen is the last thing done to a case's map (diagnostic only, the
+// state is discarded afterwards): OpenCircuits is documented to "check that
+// all keystones correspond to committed-but-unopened circuits". A second
+// keystone for a circuit that already has one is outside the caller contract
+// (CommitCircuits hands a circuit out once), so accepting it is not judged.
+func (x *verifC07Run) probeReopen() {
+	op := x.sortedOpened()
+	if len(op) == 0 {
+		return
+	}
+	c := x.m.opened[op[x.r.Intn(len(op))]]
+	var free []CircuitKey
+	for _, o := range x.outKeys() {
+		if x.m.opened[o] == nil {
+			free = append(free, o)
+		}
+	}
+	if len(free) == 0 {
+		return
+	}
+	o2 := free[x.r.Intn(len(free))]
+	err := x.cm.OpenCircuits(Keystone{InKey: c.In, OutKey: o2})
+	x.vc.Count("probe_reopen", 1)
+	if err != nil {
+		return
+	}
+	both := x.cm.LookupOpenCircuit(*c.Out) != nil && x.cm.LookupOpenCircuit(o2) != nil
+	x.vc.Diag("second_keystone_for_open_circuit_accepted", fmt.Sprintf(
+		"OpenCircuits(%s -> %s) returned nil although the circuit already has keystone %s; "+
+			"both outgoing keys now resolve to it: %v",
+		verifC07KeyStr(c.In), verifC07KeyStr(o2), verifC07KeyStr(*c.Out), both))
+}
+
 func (x *verifC07Run) runCase(i int) {
 	vc := x.vc
 	r := x.r
@@ -2017,6 +2050,9 @@ func (x *verifC07Run) runCase(i int) {
 	}
 	if x.bad {
 		return
+	}
+	if !x.aborted && r.Chance(1, 4) {
+		x.probeReopen()
 	}
 	// signature of a non-trivial case: which behaviours it exhibited.
 	if x.feat["restart"] || x.nfork > 0 {
